@@ -10,6 +10,13 @@ BASELINE_OFF = ("cd /repo && env -u SHAREPOINT2TEXT_VERIF /venv/bin/python -m py
 
 # pid -> (category, technique, level text, level note, design ref)
 CHECKS = {
+    "C01": ("exploration",
+            "exception-surface monitor + CPU-time budget in sandboxed workers over fixtures/generated documents x byte-, ZIP- and markup-aware mutations x 5 entry points",
+            "Each of the 21 extractors is driven with unmutated, truncated, bit-flipped, spliced, container-aware-mutated and cross-format inputs, directly and through read_file, the CLI "
+            "(text/--json/--json-unit/--binary), as archive member (zip/tar/tgz) and as e-mail attachment; the worker records the escaping exception's MRO, results yielded before, process CPU time "
+            "and the CLI's exit status/stdout/stderr. Anything outside the ExtractionError family, a CLI contract breach, a dead interpreter or CPU > 10x(2 s + 4 us/byte) is a violation.",
+            "Termination is restated as bounded progress on CPU time; inputs <= 3 MB; RLIMIT_AS 1.5 GiB per worker.",
+            "DESIGN.md §8 C01"),
     "C02": ("exploration",
             "ground-truth document generators with unique class-tagged tokens; token oracle (multiset/order/gluing/leakage) over get_full_text() of the real extractors in sandboxed workers",
             "Hand-written writers (never the libraries the extractors read with) render random documents whose every text leaf is a unique token; the oracle tokenises "
